@@ -84,7 +84,29 @@ def main():
                         if kx == ky and (s1 != s2 or p1 != p2): continue      # exact ties reached through floats may round either way
                         for kind in ("int", "float"):
                             cmps.append({"op": op, "a": {"m": ["int", str(x), "1"], "u": [[p1, s1, 1]]}, "b": {"m": [kind, str(x), "1"], "u": [[p2, s2, 1]]}, "want": want})
-    r = impl("convsys_worker.py", {"systems": True, "cases": cases + cmps})
+    # differences across scales: a - b is a minus b expressed on a's scale (and + likewise), result on a's scale
+    arith = []
+    for _ in range(120 if quick else 1200):
+        s1, s2 = rng.choice(scales), rng.choice(scales)
+        p1, p2 = rng.choice([None, None, "milli", "kilo"]), rng.choice([None, None, "milli", "kilo"])
+        x, y = rng.randint(-300, 3000), rng.randint(-300, 3000)
+        arith.append({"op": rng.choice(["sub", "sub", "add"]), "a": {"m": [rng.choice(["int", "float"]), str(x), "1"], "u": [[p1, s1, 1]]},
+                      "b": {"m": [rng.choice(["int", "float"]), str(y), "1"], "u": [[p2, s2, 1]]}, "g": [s1, p1, s2, p2, x, y]})
+    r = impl("convsys_worker.py", {"systems": True, "cases": cases + cmps + arith})
+    res_a = r["results"][len(cases) + len(cmps):]
+    # approximate equality across scales (Measurement machinery): true for the same temperature, false for clearly different ones
+    approx = []
+    for _ in range(80 if quick else 800):
+        s1, s2 = rng.choice(scales), rng.choice(scales)
+        x = Fraction(rng.randint(-200, 2000))
+        a1, b1 = ideal(s1, 1, "kelvin", 1); kx = a1 * x + b1
+        same = rng.random() < 0.4
+        ky = kx if same else kx + rng.choice([Fraction(-25), Fraction(3), Fraction(150), Fraction(-1)])
+        a2, b2 = ideal("kelvin", 1, s2, 1); y = a2 * ky + b2
+        yn, yd = float(y).as_integer_ratio()
+        approx.append({"op": "eq", "l": {"t": "qty", "m": ["int", str(x), "1"], "u": [[None, s1, 1]]},
+                       "r": {"t": "approx", "m": ["float", str(yn), str(yd)], "u": [[None, s2, 1]], "w": ["float", "1", "10000000"]}, "same": same})
+    res_p = impl("meas_worker.py", {"cases": approx})["results"]
     cases = [with_ref(cs) for cs in cases]
     res_c = r["results"][:len(cases)]; res_k = r["results"][len(cases):]
     exp = r["export"]
@@ -149,11 +171,31 @@ def main():
             d = Fraction(cs["delta"]); want = {"lt": d > 0, "le": d > 0, "gt": d < 0, "ge": d < 0, "eq": False}[cs["op"]]; d = float(d)
         if res.get("bool") != want:
             c.violation("compare:" + cs["op"], f"{cs['op']} is {res.get('bool', res.get('err'))} but the kelvin values say {want} ({d})", {"case": cs, "implementation": res})
+    for cs, res in zip(arith, res_a):
+        c.count(cs, nontrivial=True)
+        s1, p1, s2, p2, x, y = cs["g"]
+        A, B = ideal(s2, pv[p2] if p2 else Fraction(1), s1, pv[p1] if p1 else Fraction(1))        # b on a's scale
+        by = A * y + B
+        want = x - by if cs["op"] == "sub" else x + by
+        if "err" in res or len(res.get("m", [])) != 3:
+            c.violation(f"arith-raises:{cs['op']}", f"{cs['op']} across temperature scales: {res}", {"case": cs, "implementation": res}); continue
+        got = frac(res["m"])
+        if abs(got - want) > Fraction(1, 10**9) * max(abs(want), abs(x), abs(by)) or not res.get("unit_is_left"):
+            c.violation(f"difference:{cs['op']}", f"{x} {p1 or ''}{s1} {'-' if cs['op'] == 'sub' else '+'} {y} {p2 or ''}{s2}: got {float(got)}, the affine definitions give {float(want)}",
+                        {"case": cs, "implementation": res})
+    for cs, rec in zip(approx, res_p):
+        c.count(cs, nontrivial=True)
+        res = rec["res"]
+        if res.get("t") != "bool" or rec.get("rev", {}).get("t") != "bool":
+            c.violation("approx-raises", f"comparison with approximately() across scales: {res}", {"case": cs, "implementation": rec}); continue
+        if res["b"] != cs["same"] or rec["rev"]["b"] != cs["same"]:
+            c.violation("approx-eq", f"a == approximately(b) is {res['b']} (reversed {rec['rev']['b']}) but the two temperatures are {'the same' if cs['same'] else 'different'}",
+                        {"case": cs, "implementation": rec})
     c.sample({"convert": cases[5]["a"], "to": cases[5]["b"], "result": res_c[5].get("m")}); c.sample({"compare": cmps[0], "result": res_k[0]})
     c.finish(rule="all 16 ordered pairs of {K, degC, degF, R} x (no prefix + every registered same-base prefix)^2 (exhaustive grid, both as a Coq obligation on "
                   "the regenerated graph and on the implementation), plus int/float/Decimal magnitudes incl. below absolute zero per unprefixed pair, plus "
                   "cross-scale comparisons; oracle = exact affine definitions in rationals at 1e-9 of the largest term; non-trivial = scale or prefix differs",
-             extra={"traces_validated_against_impl": len(cases) + len(cmps)},
+             extra={"traces_validated_against_impl": len(cases) + len(cmps) + len(arith) + len(approx)},
              assumptions=["the declared constants are floats: the affine coefficients are within 2^-48 (relative) of the exact decimal definitions, checked in the kernel",
                           "float rounding of the implementation is measured at 1e-11 against the exact model, not proved"])
 
